@@ -29,11 +29,19 @@ func RunWire(o *hx.Out, g *hx.Rng, tier string) {
 				if tier != "thorough" && (ci.name == "3des" || ci.name == "none" || ci.name == "xor") && g.Chance(50) {
 					continue
 				}
+				if tooMany(o) {
+					return
+				}
 				cfg := randomConfig(g, ci, fec)
 				p := profile{rounds: 6 + g.Intn(10), loss: []int{0, 0, 10, 30}[g.Intn(4)], dup: g.Intn(8), swap: g.Intn(8),
 					step: []int{10, 30, 100, 250}[g.Intn(4)], bidir: g.Chance(60), oobProb: 30, withOOB: true, maxUnits: 4, mtuPlay: 12}
 				if tier == "thorough" {
 					p.rounds += g.Intn(30)
+				}
+				if g.Chance(20) {
+					// stalled reader: the peer's window closes, window probes (WASK/WINS) appear
+					p.stall, p.rounds, p.step, p.maxUnits = true, p.rounds+12, 250, 8
+					cfg.rcvwnd = 32
 				}
 				gOps, gFate, gOOB, gOOBFate := g.Fork(), g.Fork(), g.Fork(), g.Fork()
 				mg := g.Fork()
@@ -57,6 +65,9 @@ func RunWire(o *hx.Out, g *hx.Rng, tier string) {
 			gOps, gFate, gOOB, gOOBFate := g.Fork(), g.Fork(), g.Fork(), g.Fork()
 			runHistory(o, g, cfg, func(w *world) { w.traffic(p, gOps, gFate, gOOB, gOOBFate) })
 		}
+		if tooMany(o) {
+			return
+		}
 		mtuScenarios(o, g, tier)
 		entropyTie(o, g)
 	}
@@ -71,6 +82,9 @@ func mtuScenarios(o *hx.Out, g *hx.Rng, tier string) {
 			continue
 		}
 		for _, fec := range [][2]int{{0, 0}, {2, 1}, {10, 3}} {
+			if tooMany(o) {
+				return
+			}
 			cfg := randomConfig(g, ci, fec)
 			cfg.counting = true
 			mg := g.Fork()
@@ -207,6 +221,9 @@ func RunOOB(o *hx.Out, g *hx.Rng, tier string) {
 			for _, fec := range [][2]int{{1, 1}, {2, 1}, {3, 2}, {10, 3}, {0, 0}} {
 				if tier != "thorough" && (ci.name == "3des" || ci.name == "none" || ci.name == "xor") && g.Chance(60) {
 					continue
+				}
+				if tooMany(o) {
+					return
 				}
 				cfg := randomConfig(g, ci, fec)
 				p := profile{rounds: 8 + g.Intn(8), loss: []int{0, 15, 35}[g.Intn(3)], dup: g.Intn(10), step: []int{10, 30, 100}[g.Intn(3)],
